@@ -16,6 +16,11 @@ type Value struct {
 
 type synth struct{ name string }
 
+type boundVar struct {
+	obj types.Object
+	val Value
+}
+
 type State struct {
 	pc    string
 	vars  map[any]Value
@@ -121,6 +126,7 @@ type Engine struct {
 	ghosts     map[string]*synth
 	useStreq   bool
 	loopEntry  []*State
+	boundVars  []boundVar
 }
 
 func newEngine(w *World, pk *Pkg, c *Contract) *Engine {
@@ -548,8 +554,20 @@ func (e *Engine) havocHeap(st *State, name string) {
 
 func elemHeapName(elem types.Type) string { return "HE_" + mangle(types.TypeString(elem, nil)) }
 func ptrHeapName(elem types.Type) string  { return "HP_" + mangle(types.TypeString(elem, nil)) }
+// structCanon maps an underlying struct to the name of the first named type seen with it, so that two named types
+// declared one from the other (`type filesFileInfo filesFile`, converted through pointers) share their field heaps.
+var structCanon = map[*types.Struct]string{}
+
 func fieldHeapName(st types.Type, field string) string {
-	return "F_" + mangle(types.TypeString(st, nil)) + "_" + field
+	name := types.TypeString(st, nil)
+	if su, ok := types.Unalias(st).Underlying().(*types.Struct); ok {
+		if c, ok := structCanon[su]; ok {
+			name = c
+		} else {
+			structCanon[su] = name
+		}
+	}
+	return "F_" + mangle(name) + "_" + field
 }
 
 func (e *Engine) arrSort(elemSort string) string {
